@@ -106,6 +106,12 @@ func caseFeatures(c Case, e *Expect) []string {
 	if equalHook {
 		out = append(out, "hook_equal_to_another_partys")
 	}
+	for _, s := range c.Chain {
+		if len(s.Evict) > 0 {
+			out = append(out, "response_with_an_eviction")
+			break
+		}
+	}
 	if c.Fixture < numFixtures && c.Kind == "update" && subscribers(c.Fixture, "update") == 0 {
 		out = append(out, "update_request_nobody_is_subscribed_to")
 	}
